@@ -14,6 +14,7 @@ CONSTANTS
   RecheckUnderLock = TRUE
   GuardedConn = TRUE
   PerCycleWG = FALSE
+  SubscribeMayFail = FALSE
   Script <- MCScriptC
 VIEW view
 INVARIANTS MutualExclusion FifoPrefix AtMostOnce ExactlyOnce NoPanic AfterShutdown NoLateStart Accounted
